@@ -54,9 +54,18 @@ func c09scenario(k int, watching bool) {
 		case 0: // EnableVerification
 			nv := len(verifyLog)
 			cur, cser := d.ViewVersion()
+			// once verification is on (never delayed, or enabled successfully before with watching
+			// sources) a further call must leave it on whatever Verify would say now: Verify gets an
+			// external reason to fail during such a call. What the call returns then is only
+			// asserted where it is documented (no delay: no-op success); in the other case the
+			// later events decide (re-stacks must still be verified).
+			extFail := !delayInForce && (!delay || watching)
+			verifyExternalFail = extFail
 			cfg, ser, eerr := d.EnableVerification(ctx)
+			verifyExternalFail = false
 			if !delay {
 				zzverif.Assert(eerr == nil && cfg == cur, "C09 EnableVerification without delayed verification must return the current config")
+				zzverif.Assert(len(verifyLog) == nv, "C09 EnableVerification without delayed verification must not verify")
 				break
 			}
 			if delayInForce {
@@ -73,7 +82,7 @@ func c09scenario(k int, watching bool) {
 					zzverif.Assert(ser.s == cser.s && ser.cfg == cur, "C09 EnableVerification did not return the serial of the config it verified")
 					delayInForce = false
 				}
-			} else {
+			} else if !extFail || eerr == nil {
 				zzverif.Assert(eerr == nil && cfg == cur, "C09 a repeated EnableVerification after success must succeed with the current config")
 			}
 		case 1: // update
